@@ -193,6 +193,8 @@ def execute(scn):
         },
         "sim_strain": float(sum(m.strain for m in world.minerals)),
         "max_ratio": mon.max_ratio,
+        "maxima": {"orthonormality_over_bound.rotation<=6rad": mon.max_ratio,
+                   "orthonormality_over_bound.rotation>6rad": getattr(mon, "max_ratio_large_rotation", 0.0)},
         "sig": S.schedule_signature(scn["ops"]),
         "nontrivial": mon.n_snap_checked >= 2,
         "states": sorted(states),
